@@ -2,6 +2,7 @@ package props
 
 import (
 	"go/types"
+	"sort"
 	"strings"
 
 	"verif/checker/internal/an"
@@ -72,6 +73,29 @@ func c19(c *Ctx) {
 		}
 		for _, v := range retVals(f) {
 			secrets = append(secrets, secretSite{g.name + ":tl." + g.fn, v, c.pos(f.Pos())})
+		}
+	}
+	// ... and what the callers do with the drawn object afterwards belongs to the secret too: a nonce OR-ed with the
+	// clock after the draw still "comes from" the generator (the slice follows the mutators of the fresh object)
+	{
+		var users []*ssa.Function
+		for f := range c.P.AllFunctions() {
+			if c.inRepo(f) && len(f.Blocks) > 0 && load.FuncPkgPath(f) != load.TLPkg {
+				users = append(users, f)
+			}
+		}
+		sort.Slice(users, func(i, j int) bool { return users[i].String() < users[j].String() })
+		for _, f := range users {
+			n := 0
+			for _, cs := range an.Calls(f) {
+				if cs.Name != load.TLPkg+".RandomInt128" && cs.Name != load.TLPkg+".RandomInt256" {
+					continue
+				}
+				if v, ok := cs.Instr.(ssa.Value); ok {
+					n++
+					secrets = append(secrets, secretSite{sprintf("%s@%s#%d", strings.TrimPrefix(cs.Name, load.TLPkg+"."), an.ShortName(f), n), v, c.pos(cs.Pos())})
+				}
+			}
 		}
 	}
 	if f := c.fn("R19.S", load.MathPkg, "", "MakeGAB"); f != nil {
